@@ -188,6 +188,33 @@ def bounds(ctx):
         ctx.ob('R-C17d', 'alloc>=offset+BUF_SIZE', oka, loc=a.loc,
                detail='read/write mode allocates %s bytes >= %d (offset of the buffer) + %s' % ([strip(s['rhs']).get('v') for s in nosplice], uoff, size), fn=a.q)
     g = prog.fn('iv_fd_pump_try_output')
+    # compaction: in read/write mode, once bytes were consumed the rest is moved to the buffer base on every path
+    dec = [e for e in g.events() if e['ev'] == 'store' and last_member(e['lhs']) == ('iv_fd_pump', 'bytes') and e['op'] in ('-=', '--')]
+    if prog.global_for('iv_fd_pump.c', 'splice_available') is not None:
+        from ..analyses import force_edges
+        def keep(blk, si, atoms):
+            for (op, lc, rc, l, r) in atoms:
+                if lc == 'splice_available' and rc == '0' and op in ('==', '!='):
+                    return op == '=='
+            return None
+        gw = force_edges(g, keep)
+    else:
+        gw = g
+    def compaction(e):
+        if not is_call(e, ('memmove', 'memcpy')):
+            return False
+        d, s_, n_ = e['args'][0], strip(e['args'][1]), e['args'][2]
+        return canon(d).endswith('u.buf') and s_.get('k') == 'bin' and s_['op'] == '+' and canon(s_['l']) == canon(d) \
+            and last_member(n_) == ('iv_fd_pump', 'bytes')
+    okc = bool(dec)
+    for d in dec:
+        mp = must_pass(gw, compaction, start_event=d)
+        for (pb, pi, e) in exits_of(gw):
+            if mp.get((pb, pi)) is False:
+                okc = False
+    ctx.ob('R-C17d', 'write:remainder-compacted', okc, loc=dec[0]['loc'] if dec else g.loc,
+           detail='after a (partial) write in read/write mode the unsent remainder is moved to the buffer base (memmove(buf, buf + sent, bytes)) on every path: '
+                  'the next write and the next read offset both assume it', fn=g.q)
     for e in [x for x in g.events() if is_call(x, 'write')]:
         ok = last_member(e['args'][2]) == ('iv_fd_pump', 'bytes') and canon(e['args'][1]).endswith('u.buf')
         ctx.ob('R-C17d', 'write:length-is-bytes-from-base', ok, loc=e['loc'],
